@@ -32,11 +32,15 @@ LEVEL_TEXT = ('every clause of the property is a Coq theorem about the executabl
               'idempotent passes), nested compositions, lists, the pipe operator and cleanup all equal the sequential '
               'application of the leaf passes. The model is hand-written and tied to /repo on every run by comparing '
               'the complete output circuit of every pass and of random pipelines on generated circuits; the four pass '
-              'algorithms are in addition regenerated from minimization/simplification/*.py on every run (translator T15) '
-              'and proved equal to the model for every circuit (C18_passes_regenerated)')
+              'algorithms, cleanup, the reduction loop of linearize_reduce_transformers and the class tables (idempotence '
+              'flags, implied post passes) are in addition regenerated from the source on every run (translator T15) '
+              'and proved equal to / consistent with the model (C18_passes_regenerated)')
 LEVEL_NOTE = ('Coq kernel + vm_compute; model of the four passes proved equal to the functions translator T15 regenerates from '
-              'the source (trusted: the translator and its prelude, see C03); hand-written model of the pipeline machinery '
-              '(transformer.py, cleanup.py: correspondence only) and of traversal/evaluation (shared with '
+              'the source (trusted: the translator and its prelude, see C03); pipeline machinery: cleanup, the reduction loop '
+              'of linearize_reduce_transformers, the __idempotent__ flags and the pre / post transformer lists of the '
+              'constructors are regenerated (Generated/PipelineGen.v) and the model is proved consistent with them; '
+              'linearize_transformers / as_distinct / apply_transformers / transform / the pipe operator / the __eq__ '
+              'methods remain hand-modelled (correspondence only); hand-written model of traversal/evaluation (shared with '
               'C01/C03/C20); correspondence harness. Hypotheses: WF c (the C02 invariant) for RR effect/totality, ME and MU; '
               'MD needs none; RR idempotence and all pipeline equations need only that the outputs of the initial circuit '
               'name gates (a clause of WF, re-established by every pass) - without it [RR; RR] differs from RR RR in '
